@@ -39,6 +39,19 @@ The translator fails closed.  THE SUBSET (anything else => `Unsupported` => the 
                parameter or an alias of one is not owned, so a dropped defensive copy leaves the subset instead of being
                modelled away.  `None` (the narrowed `none` branch) is vacuously owned.
   numbers      float -> Rat (exact), `len` / indices read from `argwhere` -> Nat, other ints -> Int.
+  Python vs NumPy scalars (used by the `chordseg` configuration, harness/translate/chordseg.py): every scalar carries a
+               static flag — NumPy scalar (an item of an array, `.max()`, `.sum()`, `np.sum`, anything computed from one),
+               Python number (literals, `len`, `float(x)`, float parameters), or unknown (a loop accumulator that is one
+               before and the other after the first iteration).  `a / b`: both Python -> `divPy` (ZeroDivisionError);
+               one NumPy -> `Segment.npDiv` (never raises; `Mir.Segment.Num` = finite | nan | +-inf); unknown -> outside
+               the subset.  `array / scalar` is NumPy division entry-wise (`divVecNp`), `array * array` / `np.sum` /
+               `a - x` / builtin `min(x, y)` on such values are `mulVecNum` / `numSum` / `numRSub` / `pyMinNum`.
+  also         `x op= e` on a numeric local; `warnings.warn(<literal>)` (skipped: no effect on the result); `m1 & m2` on
+               masks; `np.hstack([a, v, b])`; `np.diff(v)`; `iv.flatten()`; `iv[:-1, 1]`, `iv[1:, 0]`; `mask.sum()`;
+               calls of `util.validate_intervals` from another module (bound to the definition generated from util.py);
+               configured externs (`encode_many` -> the hand model); `a, b, c = <call>`; locals initialised to `None` that
+               hold the previous row of a loop (`rt != prev_rt`, `(st != prev_st).any()`); a list of `[start, end]` rows
+               built by `.append([s, e])` / `rows[-1][-1] = e` and turned into an array by `np.array(rows)`.
 
 `python harness/translate/utilint.py [repo]` prints the generated file.
 """
@@ -76,6 +89,12 @@ IV, VEC, COL, MASK, IDX2, IDX, STRLIST = ("iv",), ("vec",), ("col",), ("mask",),
 NATLIST = ("natlist",)
 OPTSTRLIST = ("optstrlist",)      # a list whose items are labels or None (the fill value)
 FIDX = ("fidx",)                  # a float array holding exact natural numbers (`np.arange(n, dtype=np.float32)`)
+NUM = ("num",)                    # an np.float64 that may be nan / +-inf (`Mir.Segment.Num`)
+NUMVEC = ("numvec",)              # a 1-D float array whose entries may be nan / +-inf
+INTLIST = ("intlist",)            # a 1-D integer array (roots, basses of `encode_many`)
+BITMAPS = ("bitmaps",)            # an (n, 12) integer array: one bitmap per row
+BITMAP = ("bitmap",)
+IVROWS = ("ivrows",)              # a Python list of 2-element lists `[s, e]` this function builds
 BOT = ("bot",)                    # the empty display `[]` / `{}` before its first use
 
 
@@ -129,6 +148,9 @@ WANTED = ["validate_intervals", "intervals_to_durations", "intervals_to_boundari
           "sort_labeled_intervals", "adjust_events", "adjust_intervals", "interpolate_intervals", "intervals_to_samples",
           "merge_labeled_intervals", "index_labels", "generate_labels"]
 
+# the source module being translated (set by translate_all; `chordseg.py` swaps in its own configuration)
+CFG = {"modname": "util", "file": "util.py", "params": PARAMS, "ns": "Mir.Gen.util"}
+
 EXC = {"ValueError": "valueError", "IndexError": "indexError", "TypeError": "typeError", "KeyError": "keyError",
        "ZeroDivisionError": "zeroDivision"}
 
@@ -138,7 +160,9 @@ def lean_type(t):
     simple = {"rat": "Rat", "nat": "Nat", "int": "Int", "bool": "Bool", "str": "String", "none": "Unit",
               "iv": "(List (Rat × Rat))", "vec": "(List Rat)", "col": "(List Rat)", "mask": "(List Bool)",
               "idx2": "(List Nat)", "idx": "(List Nat)", "natlist": "(List Nat)", "strlist": "(List String)",
-              "optstrlist": "(List (Option String))", "fidx": "(List Nat)"}
+              "optstrlist": "(List (Option String))", "fidx": "(List Nat)", "num": "Mir.Segment.Num",
+              "numvec": "(List Mir.Segment.Num)", "intlist": "(List Int)", "bitmaps": "(List (List Int))",
+              "bitmap": "(List Int)", "ivrows": "(List (Rat × Rat))"}
     if k in simple:
         return simple[k]
     if k == "opt":
@@ -173,6 +197,8 @@ def join(a, b, node=None):
         return a
     if a in NUMERIC and b in NUMERIC:
         return NUMERIC[max(NUMERIC.index(a), NUMERIC.index(b))]
+    if (a == NUM and b in NUMERIC) or (b == NUM and a in NUMERIC):
+        return NUM
     if BOT in (a, b):
         return b if a == BOT else a
     if {a, b} == {STRLIST, OPTSTRLIST}:
@@ -202,19 +228,33 @@ def join(a, b, node=None):
     raise Unsupported("values of type %s and %s meet on one variable / return" % (show_type(a), show_type(b)), node)
 
 
+def np_or(a, b):
+    """the NumPy-scalar flag of `a op b`"""
+    if a is True or b is True:
+        return True
+    if a is None or b is None:
+        return None
+    return False
+
+
+# functions of other modules a translated function may call: bound to the definition generated from THAT module
+XMOD = {"util.validate_intervals": ("Mir.Gen.util.validate_intervals", [IV], NONE)}
+
+
 class E:
     """a translated PURE expression: Lean term, static type, literal value, tuple parts, freshly created list?"""
-    __slots__ = ("term", "ty", "lit", "elts", "fresh")
+    __slots__ = ("term", "ty", "lit", "elts", "fresh", "np")
 
-    def __init__(self, term, ty, lit=None, elts=None, fresh=False):
+    def __init__(self, term, ty, lit=None, elts=None, fresh=False, np=False):
         self.term, self.ty, self.lit, self.elts, self.fresh = term, ty, lit, elts, fresh
+        self.np = np          # a scalar: True = NumPy scalar, False = Python number, None = not known statically
 
 
 class Var:
     _n = 0
 
-    def __init__(self, ty, term, owned=False, vid=None):
-        self.ty, self.term, self.owned = ty, term, owned
+    def __init__(self, ty, term, owned=False, vid=None, np=False):
+        self.ty, self.term, self.owned, self.np = ty, term, owned, np
         if vid is None:
             Var._n += 1
             vid = Var._n
@@ -233,6 +273,10 @@ def coerce(e, to, node=None):
             q = Fraction(repr(e.lit)) if type(e.lit) is float else Fraction(e.lit)
             return lean_rat(q) if to == RAT else "(%d : %s)" % (q.numerator, lean_type(to))
         return "((%s : %s) : %s)" % (e.term, lean_type(e.ty), lean_type(to))
+    if to == NUM and e.ty in NUMERIC:
+        return "(Mir.Segment.Num.val %s)" % coerce(e, RAT, node)
+    if e.ty == BOT and to == IVROWS:
+        return "([] : %s)" % lean_type(to)
     if to[0] == "opt":
         if e.ty == NONE:
             return "(none : %s)" % lean_type(to)
@@ -333,7 +377,7 @@ class Module:
             raise Unsupported("callee %s is outside the subset (%s)" % (fname, self.failed[fname]), node)
         defs = self.funcs.get(fname)
         if not defs:
-            raise Unsupported("no top-level function %s in util.py" % fname, node)
+            raise Unsupported("no top-level function %s in %s" % (fname, CFG["file"]), node)
         if len(defs) != 1 or fname in self.assigned:
             raise Unsupported("%s is defined more than once" % fname, node)
         if fname in self.in_progress:
@@ -375,7 +419,7 @@ class FnTr:
             raise Unsupported("decorated function", fn)
         if a.vararg or a.kwarg or a.kwonlyargs or a.posonlyargs:
             raise Unsupported("*args / **kwargs / keyword-only parameters", fn)
-        decl = PARAMS.get(fn.name)
+        decl = CFG["params"].get(fn.name)
         if decl is None:
             raise Unsupported("no declared parameter types for %s" % fn.name, fn)
         doc = doc_param_types(fn)
@@ -443,7 +487,7 @@ class FnTr:
         out = []
         for a in self.aux.values():
             out += a + [""]
-        out += ["/-- `util.%s` (mir_eval/util.py) -/" % self.fn.name,
+        out += ["/-- `%s.%s` (mir_eval/%s) -/" % (CFG["modname"], self.fn.name, CFG["file"]),
                 "def %s %s : Py %s := do" % (ident(self.fn.name), plist, lean_type(rt))]
         out += indent(lines)
         return Sig(self.fn.name, params, rt), out
@@ -479,8 +523,18 @@ class FnTr:
             return self.bind_lines(binds) + self.emit_return(e, s)
         if isinstance(s, ast.Raise):
             return self.raise_stmt(s, env)
+        if isinstance(s, ast.AugAssign):
+            if not (isinstance(s.target, ast.Name) and s.target.id in env and env[s.target.id].ty in NUMERIC + (NUM,)):
+                raise Unsupported("augmented assignment to anything but a numeric local", s)
+            val = ast.BinOp(left=ast.Name(id=s.target.id, ctx=ast.Load()), op=s.op, right=s.value)
+            ast.copy_location(val, s)
+            ast.fix_missing_locations(val)
+            return self.assign(s.target, val, env, cont, s)
         if isinstance(s, ast.Expr):
             c = s.value
+            if isinstance(c, ast.Call) and dotted(c.func) == "warnings.warn" and self.m.imports.get("warnings") == "warnings" \
+                    and all(isinstance(a, ast.Constant) for a in c.args) and not c.keywords:
+                return cont(env)                         # a warning with a literal message: no effect on the result
             if isinstance(c, ast.Call) and isinstance(c.func, ast.Attribute) and isinstance(c.func.value, ast.Name) \
                     and c.func.attr in ("insert", "append") and c.func.value.id in env:
                 return self.mutating_call(s, env, cont)
@@ -510,6 +564,9 @@ class FnTr:
                 if isinstance(nd, ast.Call):
                     ok = isinstance(nd.func, ast.Attribute) and nd.func.attr == "format" and \
                         isinstance(nd.func.value, ast.Constant)
+                if isinstance(nd, ast.Subscript):            # `x.shape[0]` of a parameter cannot raise
+                    ok = isinstance(nd.value, ast.Attribute) and nd.value.attr == "shape" and \
+                        isinstance(nd.value.value, ast.Name) and isinstance(nd.slice, ast.Constant) and nd.slice.value == 0
                 if not ok:
                     raise Unsupported("exception message that is not built from literals and pure values", s)
         return ["throw PyErr.%s" % EXC[x.func.id]]
@@ -520,7 +577,7 @@ class FnTr:
         v = env[name]
         if c.keywords or any(isinstance(a, ast.Starred) for a in c.args):
             raise Unsupported(".%s with keywords / starred arguments" % attr, s)
-        if v.ty not in (STRLIST, NATLIST, BOT):
+        if v.ty not in (STRLIST, NATLIST, BOT, IVROWS):
             raise Unsupported(".%s on a %s" % (attr, show_type(v.ty)), s)
         if not v.owned:
             raise Unsupported("in-place .%s on %s, which may be the caller's list (no copy was made on some path)"
@@ -538,16 +595,22 @@ class FnTr:
             a = self.expr(c.args[0], env, binds)
             prim = "append"
         ty = v.ty
+        row2 = a.ty == VEC and a.elts is not None and len(a.elts) == 2 and a.fresh    # a fresh display `[s, e]`
         if ty == BOT:
-            ty = {STR: STRLIST, NAT: NATLIST}.get(a.ty)
+            ty = IVROWS if row2 else {STR: STRLIST, NAT: NATLIST}.get(a.ty)
             if ty is None:
                 raise Unsupported(".%s of a %s to an empty list" % (attr, show_type(a.ty)), s)
-        elt = STR if ty == STRLIST else NAT
+        if ty == IVROWS:
+            if not row2:
+                raise Unsupported(".%s of a %s to a list of [start, end] rows" % (attr, show_type(a.ty)), s)
+            item = "(%s, %s)" % (coerce(a.elts[0], RAT, s), coerce(a.elts[1], RAT, s))
+        else:
+            item = coerce(a, STR if ty == STRLIST else NAT, s)
         cur = coerce(E(v.term, v.ty), ty, s)
         env2 = dict(env)
         env2[name] = Var(ty, ident(name), owned=True)
         return self.bind_lines(binds) + ["let %s : %s := %s.%s %s %s" % (
-            ident(name), lean_type(ty), PI, prim, cur, coerce(a, elt, s))] + cont(env2)
+            ident(name), lean_type(ty), PI, prim, cur, item)] + cont(env2)
 
     def assign(self, target, value, env, cont, node):
         binds = []
@@ -557,7 +620,7 @@ class FnTr:
             if isinstance(value, ast.Name) and value.id in env2 and e.ty in (STRLIST, NATLIST):
                 old = env2[value.id]
                 env2[value.id] = Var(old.ty, old.term, owned=False, vid=old.vid)      # aliased from now on
-            env2[target.id] = Var(e.ty, ident(target.id), owned=e.fresh or e.ty in (BOT,))
+            env2[target.id] = Var(e.ty, ident(target.id), owned=e.fresh or e.ty in (BOT,), np=e.np)
             if e.ty == BOT:
                 return self.bind_lines(binds) + cont(env2)
             return self.bind_lines(binds) + ["let %s : %s := %s" % (ident(target.id), lean_type(e.ty), e.term)] + cont(env2)
@@ -566,15 +629,38 @@ class FnTr:
             if len(set(names)) != len(names):
                 raise Unsupported("repeated unpacking target", node)
             e = self.expr(value, env, binds)
+            if e.ty[0] == "tup" and len(e.ty[1]) == len(names) and e.elts is None:
+                env2 = dict(env)
+                for n, t in zip(names, e.ty[1]):
+                    env2[n] = Var(t, ident(n), owned=e.fresh)
+                return self.bind_lines(binds) + ["let (%s) : %s := %s" % (
+                    ", ".join(ident(n) for n in names), lean_type(e.ty), e.term)] + cont(env2)
             if e.ty[0] != "tup" or len(e.ty[1]) != len(names) or e.elts is None:
                 raise Unsupported("unpacking a value of type %s into %d names" % (show_type(e.ty), len(names)), node)
             env2 = dict(env)
             lines = []
             for n, x in zip(names, e.elts):
-                env2[n] = Var(x.ty, ident(n), owned=x.fresh or x.ty == BOT)
+                env2[n] = Var(x.ty, ident(n), owned=x.fresh or x.ty == BOT, np=x.np)
                 if x.ty != BOT:
                     lines.append("let %s : %s := %s" % (ident(n), lean_type(x.ty), x.term))
             return self.bind_lines(binds) + lines + cont(env2)
+        if isinstance(target, ast.Subscript) and isinstance(target.value, ast.Subscript) \
+                and isinstance(target.value.value, ast.Name) and target.value.value.id in env:
+            # `rows[-1][-1] = e`: the end of the last `[start, end]` row of a list of rows this function built
+            name = target.value.value.id
+            v = env[name]
+            if self.int_lit(target.value.slice) != -1 or self.int_lit(target.slice) not in (-1, 1):
+                raise Unsupported("nested item assignment other than rows[-1][-1] = e", node)
+            if v.ty not in (BOT, IVROWS) or not v.owned:
+                raise Unsupported("nested item assignment on %s (a %s this function may not own)" % (name, show_type(v.ty)),
+                                  node)
+            e = self.expr(value, env, binds)
+            if e.ty not in NUMERIC:
+                raise Unsupported("rows[-1][-1] = <%s>" % show_type(e.ty), node)
+            env2 = dict(env)
+            env2[name] = Var(IVROWS, ident(name), owned=True)
+            return self.bind_lines(binds) + ["let %s : %s ← %s.setLastEnd %s %s" % (
+                ident(name), lean_type(IVROWS), PI, coerce(E(v.term, v.ty), IVROWS, node), coerce(e, RAT, node))] + cont(env2)
         if isinstance(target, ast.Subscript) and isinstance(target.value, ast.Name) and target.value.id in env:
             if isinstance(target.slice, ast.Slice):
                 return self.slice_store(target, value, env, cont, node)
@@ -685,32 +771,33 @@ class FnTr:
                     t = join(t, fe[n].ty, s)
                 if t == BOT:
                     raise Unsupported("an empty display is all that reaches %s after the `if`" % n, s)
-                joined.append((n, t, all(fe[n].owned for fe in finals)))
+                flags = {fe[n].np for fe in finals}
+                joined.append((n, t, all(fe[n].owned for fe in finals), flags.pop() if len(flags) == 1 else None))
             elif n in env:
                 raise Unsupported("local %s is not bound on every path" % n, s)
         order = [n for n in assigned_names([s]) + names if n in [j[0] for j in joined]]
         joined = sorted(joined, key=lambda j: order.index(j[0]))
 
         def k_join(e):
-            vals = [coerce(E(e[n].term, e[n].ty), t, s) for n, t, _ in joined]
+            vals = [coerce(E(e[n].term, e[n].ty), t, s) for n, t, _, _ in joined]
             if not vals:
                 return ["pure ()"]
             return ["pure (%s)" % ", ".join(vals)] if len(vals) > 1 else ["pure %s" % vals[0]]
-        jt = TUP([t for _, t, _ in joined]) if len(joined) > 1 else (joined[0][1] if joined else NONE)
+        jt = TUP([t for _, t, _, _ in joined]) if len(joined) > 1 else (joined[0][1] if joined else NONE)
         lines = self.branch(s, env, lambda e: self.stmts(s.body, e, k_join), lambda e: self.stmts(s.orelse, e, k_join),
                             ret=jt)
         env2 = dict(env)
         for n in names:
             env2.pop(n, None)
-        for n, t, owned in joined:
-            env2[n] = Var(t, ident(n), owned=owned)
+        for n, t, owned, npf in joined:
+            env2[n] = Var(t, ident(n), owned=owned, np=npf)
         if not joined:
             head = "let _ : Unit ← "
         elif len(joined) == 1:
             head = "let %s : %s ← " % (ident(joined[0][0]), lean_type(joined[0][1]))
         else:
-            head = "let (%s) : %s ← " % (", ".join(ident(n) for n, _, _ in joined),
-                                        lean_type(TUP([t for _, t, _ in joined])))
+            head = "let (%s) : %s ← " % (", ".join(ident(n) for n, _, _, _ in joined),
+                                        lean_type(TUP([t for _, t, _, _ in joined])))
         blk = self.block(s, env, lines, jt)
         if blk is not None:
             lines = [head + blk]
@@ -736,8 +823,8 @@ class FnTr:
             return None
         name = "%s_block%d" % (self.fn.name, 1 + [i for i, x in enumerate(tops) if x is s][0])
         plist = " ".join("(%s : %s)" % (ident(n), lean_type(env[n].ty)) for n in names)
-        self.aux[name] = ["/-- lines %d-%d of `util.%s`: the statement `%s ...` as a function of the locals it reads -/" % (
-            s.lineno, s.end_lineno, self.fn.name, ast.unparse(s).split("\n")[0][:80]),
+        self.aux[name] = ["/-- lines %d-%d of `%s.%s`: the statement `%s ...` as a function of the locals it reads -/" % (
+            s.lineno, s.end_lineno, CFG["modname"], self.fn.name, ast.unparse(s).split("\n")[0][:80]),
             "def %s %s : Py %s := do" % (ident(name), plist, lean_type(ty))] + indent(lines)
         return "%s %s" % (ident(name), " ".join(ident(n) for n in names))
 
@@ -781,8 +868,9 @@ class FnTr:
     def iterable(self, it, env, binds, node):
         """-> (Lean term of the iterated list, [element types])"""
         if isinstance(it, ast.Call) and isinstance(it.func, ast.Name) and it.func.id not in env and not it.keywords:
-            elt = {STRLIST: STR, IDX: NAT, NATLIST: NAT, VEC: RAT, OPTSTRLIST: OPT(STR), FIDX: NAT}
-            if it.func.id == "zip" and len(it.args) in (2, 3):
+            elt = {STRLIST: STR, IDX: NAT, NATLIST: NAT, VEC: RAT, OPTSTRLIST: OPT(STR), FIDX: NAT, INTLIST: INT,
+                   BITMAPS: BITMAP}
+            if it.func.id == "zip" and len(it.args) in (2, 3, 4, 5):
                 es = [self.expr(a, env, binds) for a in it.args]
                 if all(e.ty in elt for e in es):
                     term = es[-1].term
@@ -842,13 +930,15 @@ class FnTr:
         self.tmp, self.aux = save
         if len(finals) != 1:
             raise Unsupported("a loop body that does not fall through exactly once", s)
-        state = []
+        state, npstate = [], {}
         for n, v in finals[0].items():
             if n in env and n not in real and env[n].vid != v.vid:
                 t = join(env[n].ty, v.ty, s)
                 if t == BOT:
                     raise Unsupported("loop state %s of unknown type" % n, s)
                 state.append((n, t))
+                if env[n].np != v.np:
+                    npstate[n] = None
         order = assigned_names(s.body) + [n for n, _ in state]
         state.sort(key=lambda x: order.index(x[0]))
         if not state:
@@ -859,7 +949,7 @@ class FnTr:
         # pass 2: the body with the state at its loop type
         env_in = dict(env)
         for n, t in state:
-            env_in[n] = Var(t, ident(n), owned=env[n].owned)
+            env_in[n] = Var(t, ident(n), owned=env[n].owned, np=npstate.get(n, env[n].np))
         loops = sorted((nd for nd in ast.walk(self.fn) if isinstance(nd, ast.For)), key=lambda nd: (nd.lineno, nd.col_offset))
         lname = "%s_loop%d" % (self.fn.name, 1 + [i for i, x in enumerate(loops) if x is s][0])
         reads = sorted((nd for nd in ast.walk(ast.Module(body=s.body, type_ignores=[]))
@@ -886,8 +976,8 @@ class FnTr:
         elt_ty = " × ".join(lean_type(t) for t in elts)
         plist = " ".join("(%s : %s)" % (ident(n), lean_type(env[n].ty)) for n in frees)
         snames = [ident(n) for n, _ in state]
-        aux = ["/-- lines %d-%d of `util.%s`: the loop `%s` as a recursion over the iterated list carrying (%s) -/" % (
-            s.lineno, s.end_lineno, self.fn.name, ast.unparse(s).split("\n")[0][:80], ", ".join(n for n, _ in state)),
+        aux = ["/-- lines %d-%d of `%s.%s`: the loop `%s` as a recursion over the iterated list carrying (%s) -/" % (
+            s.lineno, s.end_lineno, CFG["modname"], self.fn.name, ast.unparse(s).split("\n")[0][:80], ", ".join(n for n, _ in state)),
             "def %s %s : List (%s) → %s → Py %s" % (ident(lname), plist, elt_ty,
                                                    " → ".join(lean_type(t) for _, t in state), lean_type(sty)),
             "  | [], %s => pure %s" % (", ".join(snames), "(%s)" % ", ".join(snames) if len(snames) > 1 else snames[0]),
@@ -899,7 +989,7 @@ class FnTr:
             if n in finals[0] and finals[0][n].vid != env[n].vid and n not in [x for x, _ in state]:
                 env2.pop(n)
         for n, t in state:
-            env2[n] = Var(t, ident(n), owned=env[n].owned)
+            env2[n] = Var(t, ident(n), owned=env[n].owned, np=npstate.get(n, env[n].np))
         head = "let %s : %s ← " % ("(%s)" % ", ".join(snames) if len(snames) > 1 else snames[0], lean_type(sty))
         call = "%s %s" % (ident(lname), " ".join([ident(n) for n in frees] + [src] + init))
         return self.bind_lines(binds) + [head + call] + cont(env2)
@@ -939,7 +1029,7 @@ class FnTr:
         if isinstance(node, ast.Name):
             if node.id in env:
                 v = env[node.id]
-                return E(v.term, v.ty)
+                return E(v.term, v.ty, np=v.np)
             if node.id in self.locals:
                 raise Unsupported("local %s may be unbound here" % node.id, node)
             raise Unsupported("unknown name %s" % node.id, node)
@@ -1010,6 +1100,10 @@ class FnTr:
         if type(op) not in syms:
             raise Unsupported("comparison %s" % type(op).__name__, node)
         sym = syms[type(op)]
+        if sym in ("=", "≠") and a.ty in (INT, NAT, STR) and (b.ty == NONE or b.ty == OPT(a.ty)):
+            return E("(decide ((some %s) %s %s))" % (a.term, sym, coerce(b, OPT(a.ty), node)), BOOL)
+        if sym == "≠" and a.ty == BITMAP and (b.ty == NONE or b.ty == OPT(BITMAP)):
+            return E("(%s.rowNeMask %s %s)" % (PI, a.term, coerce(b, OPT(BITMAP), node)), MASK)
         arr = {IV: lambda x: "(%s.ravel %s)" % (PI, x), VEC: lambda x: x, COL: lambda x: x}
         if a.ty in arr and b.ty in NUMERIC:
             return E("(List.map (fun _v => decide (_v %s %s)) %s)" % (sym, coerce(b, RAT, node), arr[a.ty](a.term)), MASK)
@@ -1050,6 +1144,24 @@ class FnTr:
                 raise Unsupported("[%s] * n" % show_type(x.ty), node)
             cnt = b.term if b.ty == NAT else "(Int.toNat %s)" % b.term          # a negative count gives the empty list
             return E("(List.replicate %s %s)" % (cnt, x.term), lt, fresh=True)
+        if isinstance(node.op, ast.BitAnd) and a.ty == MASK and b.ty == MASK:
+            return E("(List.zipWith (fun _a _b => _a && _b) %s %s)" % (a.term, b.term), MASK, fresh=True)
+        if isinstance(node.op, ast.Div) and a.ty in NUMERIC and b.ty in NUMERIC:
+            f = np_or(a.np, b.np)
+            if f is True:
+                return E("(Mir.Segment.npDiv %s %s)" % (coerce(a, RAT, node), coerce(b, RAT, node)), NUM, np=True)
+            if f is None:
+                raise Unsupported("a division whose operands are not known to be Python numbers or NumPy scalars "
+                                  "(ZeroDivisionError vs nan / inf)", node)
+            t = self.bind(binds, "%s.divPy %s %s" % (PI, coerce(a, RAT, node), coerce(b, RAT, node)), RAT, node)
+            return E(t, RAT, np=False)
+        if isinstance(node.op, ast.Div) and a.ty == VEC and b.ty in NUMERIC:
+            return E("(%s.divVecNp %s %s)" % (PI, a.term, coerce(b, RAT, node)), NUMVEC, fresh=True)
+        if isinstance(node.op, ast.Mult) and a.ty == VEC and b.ty == NUMVEC:
+            t = self.bind(binds, "%s.mulVecNum %s %s" % (PI, a.term, b.term), NUMVEC, node)
+            return E(t, NUMVEC, fresh=True)
+        if isinstance(node.op, ast.Sub) and a.ty in NUMERIC and b.ty == NUM:
+            return E("(%s.numRSub %s %s)" % (PI, coerce(a, RAT, node), b.term), NUM, np=True)
         if a.ty == FIDX and b.ty in NUMERIC and isinstance(node.op, ast.Mult):
             return E("(List.map (fun _i => ((_i : Nat) : Rat) * %s) %s)" % (coerce(b, RAT, node), a.term), VEC, fresh=True)
         if a.ty == VEC and b.ty in NUMERIC and isinstance(node.op, (ast.Add, ast.Sub, ast.Mult)):
@@ -1060,7 +1172,7 @@ class FnTr:
             if isinstance(node.op, ast.Sub) and t == NAT:
                 t = INT
             sym = {ast.Add: "+", ast.Sub: "-", ast.Mult: "*"}[type(node.op)]
-            return E("(%s %s %s)" % (coerce(a, t, node), sym, coerce(b, t, node)), t)
+            return E("(%s %s %s)" % (coerce(a, t, node), sym, coerce(b, t, node)), t, np=np_or(a.np, b.np))
         raise Unsupported("operator %s on %s and %s" % (type(node.op).__name__, show_type(a.ty), show_type(b.ty)), node)
 
     def attribute(self, node, env, binds):
@@ -1100,12 +1212,21 @@ class FnTr:
             if len(sl.elts) != 2:
                 raise Unsupported("subscript with %d indices" % len(sl.elts), node)
             r, c = sl.elts
-            if v.ty == IV and isinstance(r, ast.Slice) and r.lower is None and r.upper is None and r.step is None:
+            if v.ty == IV and isinstance(r, ast.Slice) and r.step is None:
+                term = v.term
+                for bound, prim in ((r.lower, "sliceFrom"), (r.upper, "sliceTo")):
+                    if bound is not None:
+                        kb = self.int_lit(bound)
+                        if kb is None:
+                            raise Unsupported("a computed row bound in a 2-D slice", node)
+                        term = "(%s.%s %s (%d : Int))" % (PI, prim, term, kb)
+                if r.lower is not None and r.upper is not None:
+                    raise Unsupported("a 2-D slice with both row bounds", node)
                 k = self.int_lit(c)
                 if k == 0:
-                    return E("(%s.col0 %s)" % (PI, v.term), VEC)
+                    return E("(%s.col0 %s)" % (PI, term), VEC)
                 if k in (1, -1):
-                    return E("(%s.col1 %s)" % (PI, v.term), VEC)
+                    return E("(%s.col1 %s)" % (PI, term), VEC)
                 raise Unsupported("column %r of an (n, 2) array" % k, node)
             if v.ty == IDX2:
                 i, j = self.int_lit(r), self.int_lit(c)
@@ -1119,7 +1240,7 @@ class FnTr:
                     raise Unsupported("non-literal position in an (n, 2) array", node)
                 t = self.bind(binds, "%s.getItem (%s.%s %s) (%d : Int)" % (
                     PI, PI, "col0" if j in (0, -2) else "col1", v.term, i), RAT, node)
-                return E(t, RAT)
+                return E(t, RAT, np=True)
             raise Unsupported("2-D subscript of a %s" % show_type(v.ty), node)
         if isinstance(sl, ast.Slice):
             if sl.step is not None:
@@ -1152,7 +1273,7 @@ class FnTr:
         if k is not None and v.ty in (VEC, STRLIST, NATLIST, IDX):
             elt = {VEC: RAT, STRLIST: STR, NATLIST: NAT, IDX: NAT}[v.ty]
             t = self.bind(binds, "%s.getItem %s (%d : Int)" % (PI, v.term, k), elt, node)
-            return E(t, elt)
+            return E(t, elt, np=(v.ty == VEC))
         i = self.expr(sl, env, binds)
         if v.ty[0] == "dict" and i.ty == v.ty[1]:
             t = self.bind(binds, "%s.dictGet %s %s" % (PI, v.term, i.term), v.ty[2], node)
@@ -1213,9 +1334,13 @@ class FnTr:
             if m in ("min", "max") and nargs == 0 and v.ty in (IV, VEC):
                 src = "(%s.ravel %s)" % (PI, v.term) if v.ty == IV else v.term
                 t = self.bind(binds, "%s.%sOf %s" % (PI, m, src), RAT, node)
-                return E(t, RAT)
+                return E(t, RAT, np=True)
             if m == "any" and nargs == 0 and v.ty == MASK:
                 return E("(%s.anyB %s)" % (PI, v.term), BOOL)
+            if m == "flatten" and nargs == 0 and v.ty == IV:
+                return E("(%s.ravel %s)" % (PI, v.term), VEC, fresh=True)
+            if m == "sum" and nargs == 0 and v.ty == MASK:
+                return E("(%s.countTrue %s)" % (PI, v.term), NAT, np=True)
             if m == "tolist" and nargs == 0 and v.ty == VEC:
                 return E(v.term, VEC, fresh=True)
             if m == "flatten" and nargs == 0 and v.ty in (COL, VEC):
@@ -1230,6 +1355,27 @@ class FnTr:
             if v.ty in (IV, VEC, STRLIST, NATLIST, IDX2, IDX, MASK):
                 return E("(%s.len %s)" % (PI, v.term), NAT)
             raise Unsupported("len of a %s" % show_type(v.ty), node)
+        if name == "float" and nargs == 1 and not node.keywords:
+            v = self.expr(node.args[0], env, binds)
+            if v.ty in NUMERIC:
+                return E(coerce(v, RAT, node), RAT, np=False)
+            raise Unsupported("float() of a %s" % show_type(v.ty), node)
+        if name == "min" and nargs == 2 and not node.keywords:
+            a, b = (self.expr(x, env, binds) for x in node.args)
+            if a.ty == NUM and b.ty == NUM:
+                return E("(%s.pyMinNum %s %s)" % (PI, a.term, b.term), NUM, np=True)
+            raise Unsupported("min of %s and %s" % (show_type(a.ty), show_type(b.ty)), node)
+        if name in CFG.get("externs", {}) and name in self.m.funcs and name not in env:
+            return CFG["externs"][name](self, node, env, binds)
+        if name in XMOD and CFG["modname"] != "util":
+            if self.m.imports.get("util") not in ("..util", ".util", "mir_eval.util") or "util" in self.m.assigned:
+                raise Unsupported("`util` is not mir_eval.util", node)
+            lean, ptys, rty = XMOD[name]
+            if node.keywords or nargs != len(ptys):
+                raise Unsupported("call of %s with other than its positional arguments" % name, node)
+            args = [coerce(self.expr(a, env, binds), t, node) for a, t in zip(node.args, ptys)]
+            t = self.bind(binds, "%s %s" % (lean, " ".join(args)), rty, node)
+            return E(t, rty)
         if name == "int" and nargs == 1 and not node.keywords:
             fl = node.args[0]
             if isinstance(fl, ast.Call) and dotted(fl.func) == "np.floor" and len(fl.args) == 1 and not fl.keywords \
@@ -1336,6 +1482,10 @@ class FnTr:
                         return E("(%s)" % " ++ ".join(e.term for e in es), IV, fresh=True)
                 raise Unsupported("np.concatenate(axis=0) of anything but (n, 2) arrays", node)
             return E(self.stack_rows(node.args[0], env, binds, node, 1), VEC, fresh=True)
+        if fn == "array" and nargs == 1 and not node.keywords and isinstance(node.args[0], ast.Name):
+            v = A(0)
+            if v.ty == IVROWS:
+                return E(v.term, IV, fresh=True)
         if fn == "array" and nargs == 1 and not node.keywords:
             arg = node.args[0]
             if isinstance(arg, ast.List) and len(arg.elts) == 1 and isinstance(arg.elts[0], (ast.List, ast.Tuple)) \
@@ -1347,6 +1497,28 @@ class FnTr:
                 a, b = (self.expr(x, env, binds) for x in arg.elts)
                 if a.ty == VEC and b.ty == VEC:
                     return E("?", ("veclist2",), elts=[a, b], fresh=True)     # a (2, n) array: only `.T` consumes it
+        if fn == "sum" and nargs == 1 and not node.keywords:
+            v = A(0)
+            if v.ty == VEC:
+                return E("(Mir.Iv.qsum %s)" % v.term, RAT, np=True)
+            if v.ty == NUMVEC:
+                return E("(%s.numSum %s)" % (PI, v.term), NUM, np=True)
+        if fn == "hstack" and nargs == 1 and not node.keywords and isinstance(node.args[0], (ast.List, ast.Tuple)) \
+                and node.args[0].elts:
+            parts = []
+            for x in node.args[0].elts:
+                e = self.expr(x, env, binds)
+                if e.ty in NUMERIC:
+                    parts.append("[%s]" % coerce(e, RAT, node))
+                elif e.ty == VEC:
+                    parts.append(e.term)
+                else:
+                    raise Unsupported("np.hstack operand of type %s" % show_type(e.ty), node)
+            return E("(%s)" % " ++ ".join(parts), VEC, fresh=True)
+        if fn == "diff" and nargs == 1 and not node.keywords:
+            v = A(0)
+            if v.ty == VEC:
+                return E("(%s.diff1 %s)" % (PI, v.term), VEC, fresh=True)
         if fn == "unique" and nargs == 1 and not node.keywords:
             v = A(0)
             if v.ty == VEC:
@@ -1379,7 +1551,8 @@ class FnTr:
             if a.ty == VEC and b.ty == VEC:
                 t = self.bind(binds, "%s.allclose %s %s" % (PI, a.term, b.term), BOOL, node)
                 return E(t, BOOL)
-        if fn == "asarray" and nargs == 1 and not node.keywords:
+        if fn == "asarray" and nargs == 1 and all(
+                kw.arg == "dtype" and isinstance(kw.value, ast.Name) and kw.value.id == "float" for kw in node.keywords):
             v = A(0)
             if v.ty == ("pairlist",):
                 return E(v.term, IV, fresh=True)
@@ -1460,6 +1633,7 @@ def val_decoder(ty, v):
 def val_encoder(ty):
     k = ty[0]
     simple = {"rat": "Val.rat", "nat": "Val.ofNat", "int": "Val.ofInt", "bool": "Val.bool", "str": "Val.str",
+              "num": "Mir.Segment.Num.toVal", "ivrows": "Val.ofRatPairs",
               "none": "(fun _ => Val.none)", "iv": "Val.ofRatPairs", "vec": "Val.ofRats", "col": "Val.ofRats",
               "strlist": "Val.ofStrs", "natlist": "Val.ofNats", "idx": "Val.ofNats"}
     if k in simple:
@@ -1492,10 +1666,26 @@ set_option linter.unusedVariables false
 """
 
 
-def translate_all(repo, wanted=None):
+UTIL_CFG = {"modname": "util", "file": "util.py", "params": PARAMS, "ns": "Mir.Gen.util", "wanted": WANTED,
+            "header": None, "op": "gen.utilint", "hns": "Mir.Gen.UtilInt"}
+
+
+def translate_all(repo, wanted=None, cfg=None):
     """-> (lean text, {name: Sig}, problems [(function, detail)])"""
-    wanted = WANTED if wanted is None else wanted
-    path = os.path.join(repo, "mir_eval", "util.py")
+    global CFG
+    cfg = UTIL_CFG if cfg is None else cfg
+    saved = CFG
+    CFG = cfg
+    try:
+        return _translate_all(repo, wanted, cfg)
+    finally:
+        CFG = saved
+
+
+def _translate_all(repo, wanted, cfg):
+    wanted = cfg["wanted"] if wanted is None else wanted
+    path = os.path.join(repo, "mir_eval", cfg["file"])
+    ns, op, hns = cfg["ns"], cfg["op"], cfg["hns"]
     problems = []
     try:
         m = Module(open(path, encoding="utf-8").read())
@@ -1508,12 +1698,12 @@ def translate_all(repo, wanted=None):
                 m.translate(fname)
             except Unsupported as e:
                 problems.append((fname, e.detail))
-    L = [HEADER, "namespace Mir.Gen.util", ""]
+    L = [cfg["header"] or HEADER, "namespace %s" % ns, ""]
     rows = []
     emitted = [] if m is None else m.emitted
     for name, lines in emitted:
         L += lines + [""]
-    L += ["end Mir.Gen.util", ""]
+    L += ["end %s" % ns, ""]
     for name, _ in emitted:
         sig = m.sigs[name]
         try:
@@ -1522,20 +1712,20 @@ def translate_all(repo, wanted=None):
             enc = val_encoder(sig.ret)
         except Unsupported:
             continue
-        rows.append("  | \"gen.utilint\", Val.str \"%s\" :: [%s] => do\n%s      some (Except.map %s (Mir.Gen.util.%s %s))" % (
-            name, ", ".join(vs), "".join("      %s\n" % d for d in decs), enc, ident(name), " ".join(vs)))
-    L.append("namespace Mir.Gen.UtilInt")
+        rows.append("  | \"%s\", Val.str \"%s\" :: [%s] => do\n%s      some (Except.map %s (%s.%s %s))" % (
+            op, name, ", ".join(vs), "".join("      %s\n" % d for d in decs), enc, ns, ident(name), " ".join(vs)))
+    L.append("namespace %s" % hns)
     L.append("")
     L.append("/-- names of the translated definitions (in emission order) -/")
     L.append("def names : List String := [%s]" % ", ".join('"%s"' % n for n, _ in emitted))
     L.append("")
-    L.append("/-- protocol op `gen.utilint <\"function\"> <args...>` -/")
+    L.append("/-- protocol op `%s <\"function\"> <args...>` -/" % op)
     L.append("def handler : Handler := fun fn args =>")
     L.append("  match fn, args with")
     L += rows
     L.append("  | _, _ => none")
     L.append("")
-    L.append("end Mir.Gen.UtilInt")
+    L.append("end %s" % hns)
     return "\n".join(L) + "\n", ({} if m is None else dict(m.sigs)), problems
 
 
